@@ -214,8 +214,8 @@ func c10VarUnit(loc, kind string) *Unit {
 // environment variables seen by commands
 var c10EnvSites = []string{"process", "globalenv", "globaldotenv", "taskdotenv", "taskenv"}
 
-func c10EnvUnit(experiment bool) *Unit {
-	name := fmt.Sprintf("env/experiment_env_precedence=%v", experiment)
+func c10EnvUnit(experiment bool, emptyProcess bool) *Unit {
+	name := fmt.Sprintf("env/experiment_env_precedence=%v/process_value_empty=%v", experiment, emptyProcess)
 	return &Unit{Name: name, Weight: 3, Custom: func(u *Unit, dir string, deadline time.Time) *vlab.UnitResult {
 		res := &vlab.UnitResult{SigCounts: map[string]int{}, Extra: map[string]any{}}
 		n := 0
@@ -257,8 +257,12 @@ func c10EnvUnit(experiment bool) *Unit {
 				os.WriteFile(filepath.Join(dir, rel), []byte(content), 0o644)
 			}
 			env := []string{}
+			procVal := "process"
+			if emptyProcess {
+				procVal = ""
+			}
 			if has("process") {
-				env = append(env, "E=process")
+				env = append(env, "E="+procVal)
 			}
 			if experiment {
 				env = append(env, "TASK_X_ENV_PRECEDENCE=1")
@@ -270,7 +274,7 @@ func c10EnvUnit(experiment bool) *Unit {
 			order := [][]string{{"taskenv"}, {"taskdotenv", "taskdotenv2"}, {"globalenv", "globaldotenv", "globaldotenv2"}}
 			var want []string
 			if has("process") && !experiment {
-				want = []string{"process"}
+				want = []string{procVal}
 			} else {
 				for _, tier := range order {
 					for _, v := range tier {
@@ -285,7 +289,7 @@ func c10EnvUnit(experiment bool) *Unit {
 				}
 				if len(want) == 0 {
 					if has("process") {
-						want = []string{"process"}
+						want = []string{procVal}
 					} else {
 						want = []string{""}
 					}
@@ -305,7 +309,7 @@ func c10EnvUnit(experiment bool) *Unit {
 				samples = append(samples, map[string]any{"sites": mask, "observed": got, "acceptable": want})
 			}
 			if !ok {
-				v := vlab.V("C10", "wrong_env_precedence", fmt.Sprintf("experiment=%v:got=%s:want=%s", experiment, strings.TrimRight(got, "2"), strings.TrimRight(want[0], "2")),
+				v := vlab.V("C10", "wrong_env_precedence", fmt.Sprintf("experiment=%v:empty_process=%v:got=%s:want=%s", experiment, emptyProcess, strings.TrimRight(got, "2"), strings.TrimRight(want[0], "2")),
 					fmt.Sprintf("sites mask %05b (process,globalenv,globaldotenv,taskdotenv,taskenv): $E is %q, expected one of %q (status %d, stderr %q)", mask, got, want, rc, firstN(se, 160)))
 				v.Scenario = name
 				v.Input = map[string]any{"files": files, "env": env}
@@ -382,6 +386,57 @@ func c10Units(tier string) []*Unit {
 			us = append(us, c10VarUnit(loc, kind))
 		}
 	}
-	us = append(us, c10EnvUnit(false), c10EnvUnit(true), c10SpecialUnit())
+	us = append(us, c10EnvUnit(false, false), c10EnvUnit(true, false), c10EnvUnit(false, true), c10EnvUnit(true, true), c10SpecialUnit(), c10TwiceUnit())
 	return us
+}
+
+// the same Taskfile (which itself includes another one) included twice with different
+// include vars: every copy sees its own include's vars, at every depth
+func c10TwiceUnit() *Unit {
+	name := "vars/included-twice-with-different-vars"
+	return &Unit{Name: name, Weight: 1, Custom: func(u *Unit, dir string, deadline time.Time) *vlab.UnitResult {
+		res := &vlab.UnitResult{SigCounts: map[string]int{}, Extra: map[string]any{}}
+		n := 0
+		var samples []any
+		for _, form := range []string{"plain", "advanced-leaf", "leaf-has-include-vars"} {
+			leafInc := "  leaf: ./leaf.yml\n"
+			if form != "plain" {
+				leafInc = "  leaf:\n    taskfile: ./leaf.yml\n"
+				if form == "leaf-has-include-vars" {
+					leafInc += "    vars: {L: fromleafinc}\n"
+				}
+			}
+			files := map[string]string{
+				"Taskfile.yml": "version: '3'\nincludes:\n  one:\n    taskfile: ./mid.yml\n    vars: {WHO: one}\n  two:\n    taskfile: ./mid.yml\n    vars: {WHO: two}\ntasks:\n  default:\n    cmds: ['true']\n",
+				"mid.yml":      "version: '3'\nincludes:\n" + leafInc + "tasks:\n  show:\n    cmds:\n      - printf '%s\\n' 'WHO={{.WHO}}'\n",
+				"leaf.yml":     "version: '3'\ntasks:\n  show:\n    cmds:\n      - printf '%s\\n' 'WHO={{.WHO}}'\n",
+			}
+			os.RemoveAll(dir)
+			os.MkdirAll(dir, 0o755)
+			for rel, c := range files {
+				os.WriteFile(filepath.Join(dir, rel), []byte(c), 0o644)
+			}
+			for _, tc := range [][2]string{{"one:show", "one"}, {"two:show", "two"}, {"one:leaf:show", "one"}, {"two:leaf:show", "two"}} {
+				so, se, rc := RunCLI(dir, nil, "", "--silent", tc[0])
+				n++
+				got := strings.TrimPrefix(strings.TrimSpace(so), "WHO=")
+				if len(samples) < 2 {
+					samples = append(samples, map[string]any{"task": tc[0], "WHO": got})
+				}
+				if rc != 0 || got != tc[1] {
+					v := vlab.V("C10", "include_vars_of_other_copy", form+":"+strings.Join(strings.Split(tc[0], ":")[1:], ":"),
+						fmt.Sprintf("%s (%s): WHO is %q, its include statement says %q (status %d %s)", tc[0], form, got, tc[1], rc, firstN(se, 100)))
+					v.Scenario = name
+					v.Input = map[string]any{"files": files, "task": tc[0]}
+					res.SigCounts[v.Sig]++
+					if res.SigCounts[v.Sig] == 1 {
+						res.Violations = append(res.Violations, v)
+					}
+				}
+			}
+		}
+		res.Extra["samples"] = samples
+		res.Stats = vlab.Stats{Scenario: name, Execs: n, States: n, Transitions: n, Outcomes: 2, Exhaustive: true}
+		return res
+	}}
 }
